@@ -226,6 +226,7 @@ func (e *Executor) RunTask(ctx context.Context, call *Call) error {
 					verifhook.Ev(ctx, "promptFail")
 					return &errors.TaskCancelledByUserError{TaskName: call.Task}
 				} else if err != nil {
+					verifhook.Ev(ctx, "promptErr")
 					return err
 				}
 			}
